@@ -172,6 +172,15 @@ def _callable_kind(du: DefUse, nid: int, f: ast.AST, nested: Dict[str, ast.AST])
         return "propagators"
     if not ds and f.id == "propagators":
         return "propagators"
+    if not ds:
+        # a comprehension variable running over a list of closures made earlier
+        from rules.c18 import _listcomp_elt_kind
+        for x in du.cfg.nodes[nid].walk():
+            if isinstance(x, ast.ListComp) and any(isinstance(g.target, ast.Name) and g.target.id == f.id
+                                                   for g in x.generators):
+                k = _listcomp_elt_kind(du, nid, x)
+                if k:
+                    return k
     return None
 
 
